@@ -598,9 +598,9 @@ def approximate_capacity(accessor, tolerance_level=-10, repeats=1, maximum_itera
         >>> capacity, processes = approximate_capacity(accessor=accessor, tolerance_level=-10, repeats=2, process=True)
         >>> capacity
         1.0
-        >>> ["%.5f" % _ for _ in processes[0]]
+        >>> ["%.5f" % _ for _ in processes[0][:4]]
         ['0.57779', '0.91175', '1.00000', '1.00000']
-        >>> ["%.5f" % _ for _ in processes[1]]
+        >>> ["%.5f" % _ for _ in processes[1][:4]]
         ['0.81488', '0.68189', '1.00000', '1.00000']
 
     .. note::
@@ -660,7 +660,9 @@ def approximate_capacity(accessor, tolerance_level=-10, repeats=1, maximum_itera
                             extra={"largest eigenvalue": "%.5f" % eigenvalue, "error": "%.5f" % relative_error})
 
                 is_finished = False
-                if relative_error < 10 ** tolerance_level:
+                # the eigenvalue is converged only if the eigenvector is also stable (not a coincident plateau).
+                if relative_error < 10 ** tolerance_level \
+                        and max(abs(eigenvector - last_eigenvector)) < 10 ** tolerance_level:
                     results.append(log2(eigenvalue) if eigenvalue > 10 ** tolerance_level else 0.0)
                     is_finished = True
 
